@@ -27,15 +27,17 @@
 EXTENDS GraphStore, IOUtils
 
 CONSTANTS Mode,          \* "gen": histories with restarts; "judge": read observations back
-          RestartSets    \* set of sets of positions (number of steps done) at which a restart is inserted
+          RestartSets,   \* set of sets of positions (number of steps done) at which a restart is inserted
+          LenientRelabel \* TRUE: do not judge stale label entries once the history re-labelled an element
 
 VARIABLES rset, l
 rvars == <<gs, hist, fin, rset, l>>
 
 ------------------------------------------------------------------------
-(* re-labelling an existing element (or twice in one batch) is the known  *)
-(* open finding of C03 (old label entry stays): histories are flagged so  *)
-(* that the stale-entry clause is not judged after it                      *)
+(* re-labelling an existing element (or twice in one batch) used to leave  *)
+(* the old label entry behind (a finding of C03, repaired since):          *)
+(* histories are flagged so that the stale-entry clause can be switched    *)
+(* off after it (LenientRelabel) on trees that still have that defect      *)
 Relabels(s, c) ==
   /\ c.op \in {"AddVertex", "AddEdge", "BulkAdd"}
   /\ c.g \in DOMAIN s
@@ -206,13 +208,13 @@ Verdict(x) ==
     [] x.kind = "crash" ->
          LET f == RunCalls(x.calls)
              s == f[Len(x.calls)]
-             lenient == AnyRelabel(x.calls) \/ Relabels(s, x.call)
+             lenient == LenientRelabel /\ (AnyRelabel(x.calls) \/ Relabels(s, x.call))
          IN [i |-> x.i, before |-> s, after |-> Eff(s, x.call)[1], lenient |-> lenient,
              adm |-> AdmBad(s, x.call, ObsState(x.obs)),
              integ |-> AllIntegrityBad(x.obs, lenient)]
     [] x.kind = "cont" ->
          LET f == RunCalls(x.calls)
-             lenient == AnyRelabel(x.calls) \/ Relabels(f[Len(x.calls)], x.interrupted) \/ Relabels(x.from, x.call)
+             lenient == LenientRelabel /\ (AnyRelabel(x.calls) \/ Relabels(f[Len(x.calls)], x.interrupted) \/ Relabels(x.from, x.call))
              r == Eff(x.from, x.call)
          IN [i |-> x.i, res |-> r[2], after |-> r[1], lenient |-> lenient,
              same |-> ObsState(x.obs) = r[1],
@@ -221,7 +223,7 @@ Verdict(x) ==
          LET f == RunCalls(x.calls)
              s == f[Len(x.calls)]
              r == Eff(s, x.call)
-             lenient == AnyRelabel(x.calls) \/ Relabels(s, x.call)
+             lenient == LenientRelabel /\ (AnyRelabel(x.calls) \/ Relabels(s, x.call))
          IN [i |-> x.i, res |-> r[2], after |-> r[1], lenient |-> lenient,
              same |-> ObsState(x.obs) = r[1],
              integ |-> AllIntegrityBad(x.obs, lenient)]
